@@ -1,7 +1,7 @@
 (** C08 — per parallel index: one live task at a time, ordered bounded retries, then stop.
     Per-pass statements (every Pod create of every history is issued by some pass, with
     whatever cached Job, Pod cache, API state, clock and faults that pass runs under). *)
-From Furiko Require Import Job.Core Job.Sync Proofs.JobP Proofs.SyncP.
+From Furiko Require Import Job.Core Job.Sync Job.World Proofs.JobP Proofs.SyncP Proofs.HistoryP Proofs.CreateP.
 
 (** Every create of a pass is for a request of ComputeMissingIndexesForCreation whose
     earliest time (latest recorded finish of the index + retryDelay) has come. *)
@@ -66,3 +66,29 @@ Definition ex_job :=
 Example c08_nonvacuous :
   compute_missing ex_job = [mkReq "aaaaaa" 1 (Some 80)] /\ can_create_task ex_job = true.
 Proof. split; vm_compute; reflexivity. Qed.
+
+
+(** * over histories
+    For every history of the one-Job world (passes against lagging or emptied caches, kubelet
+    steps, foreign Pods, kill / delete, injected failures and conflicts): every Pod create the
+    controller ever issues - whatever its outcome - is for the task of an index of the Job's
+    spec with a retry number in [0, maxAttempts).  Names are unique in the API, so no index
+    ever gets more than maxAttempts tasks.  (That the number is the *next* one, and that the
+    previous attempt is finished, depends on what the caches show: findings F4, F17.) *)
+Theorem c08_created_names_bounded :
+  forall cfg j0 now ops n o,
+    let w := jrun_world cfg (init_jworld j0 now) ops in
+    In (ACreate n o) (snd (fst (fst (jstep cfg w JSync)))) ->
+    exists h r, n = job_task_name h r /\ In h (j_indexes j0) /\ 0 <= r < j_max_attempts j0.
+Proof. exact created_names_bounded. Qed.
+Print Assumptions c08_created_names_bounded.
+
+Definition ex_hist_job : job :=
+  mkJob ["aaaaaa"] false AllSuccessful 2 0 false false None false None None false true None (Some 10)
+        [] 0 0 None (CWaiting WPendingCreation) PhStarting SWaiting.
+Example c08_history_nonvacuous :
+  let cfg := mkCfg (Some 900) (Some 900) (Some 3600) in
+  let w := jrun_world cfg (init_jworld ex_hist_job 100)
+             [JSync; JAdvanceJob 5; JAdvancePods 5; JKubelet "j-aaaaaa-0" KFail; JAdvancePods 5; JSync; JAdvanceJob 5] in
+  snd (fst (fst (jstep cfg w JSync))) = [ACreate "j-aaaaaa-1" 0; AUpdateStatus 0].
+Proof. vm_compute. reflexivity. Qed.
